@@ -48,11 +48,23 @@ def all_strings(x):
             yield from all_strings(v)
 
 
+CLEAN = [True]   # the documented settings switch clean_text_values=no turns every normalisation off (set by the check that generates it)
+
+
 def survey_clean(s: str) -> str:
     """documented normalisation of survey-sheet cells: strip, collapse runs of spaces, straighten smart quotes"""
+    if not CLEAN[0]:
+        return s
     s = re.sub(r"( )+", " ", s.strip())
     return smart(s)
 
 
 def smart(s: str) -> str:
+    if not CLEAN[0]:
+        return s
+    return smart_always(s)
+
+
+def smart_always(s: str) -> str:
+    """(the settings sheet is cleaned whatever clean_text_values says: the switch itself is read from it)"""
     return s.replace("‘", "'").replace("’", "'").replace("“", '"').replace("”", '"')
